@@ -65,8 +65,8 @@ func c04(w *core.World, r *core.Report) {
 	setWordBits(w)
 	validate := w.Func("pkg/tree", "sharedEntryAttributes", "Validate")
 	rootValidate := w.Func("pkg/tree", "RootEntry", "Validate")
-	loadHigh := w.Func("pkg/datastore", "", "loadIntendedStoreHighestPrio")
-	if validate == nil || rootValidate == nil || loadHigh == nil {
+	lowTx := w.Func("pkg/datastore", "Datastore", "lowlevelTransactionSet")
+	if validate == nil || rootValidate == nil || lowTx == nil {
 		return
 	}
 
@@ -362,7 +362,7 @@ func c04(w *core.World, r *core.Report) {
 
 	// ---- LOOKAHEAD (shared with C01)
 	r.Rule("LOOKAHEAD", 1, "(shared with C01) validation sees the values that become active when the transaction's intents give way only if enough alternatives per path are loaded; a constant depth is reported (known finding for depth 2).")
-	for _, c := range core.CallsTo(loadHigh, "tree.TreeCacheClient.ReadCurrentUpdatesHighestPriorities") {
+	for _, c := range core.CallsTo(lowTx, "tree.TreeCacheClient.ReadCurrentUpdatesHighestPriorities") {
 		args := core.CallArgs(c)
 		if len(args) != 3 {
 			continue
@@ -371,15 +371,15 @@ func c04(w *core.World, r *core.Report) {
 		if cv, ok := args[2].(*ssa.Convert); ok {
 			cval, isConst = core.ConstInt(cv.X)
 		}
-		r.Check(!isConst, "LOOKAHEAD", core.Site(loadHigh, "count=%d", cval), w.InstrPos(c), "alternatives are read with a constant depth: values that become active only because higher-precedence intents are removed are not all in the tree that is validated")
+		r.Check(!isConst, "LOOKAHEAD", core.Site(lowTx, "count=%d", cval), w.InstrPos(c), "alternatives are read with a constant depth: values that become active only because higher-precedence intents are removed are not all in the tree that is validated")
 	}
 
 	// ---- MERGED-BEFORE-VALIDATE
 	r.Rule("MERGED-BEFORE-VALIDATE", 6, "the tree that is validated is the merged result: in lowlevelTransactionSet the alternatives of other intents (loadIntendedStoreHighestPrio), the running config (populateTreeWithRunning) and the last FinishInsertionPhase all execute before RootEntry.Validate on every path, and no call that adds content to the tree (AddCacheUpdatesRecursive, LoadIntendedStoreOwnerData, the two loaders) can execute after it; in replaceIntent the replace content is added before Validate. Decides: the verdict is about the resulting configuration, not about the request in isolation.")
 	if low := w.Func("pkg/datastore", "Datastore", "lowlevelTransactionSet"); low != nil {
 		V := firstCall(low, "tree.RootEntry.Validate")
-		H := firstCall(low, "datastore.loadIntendedStoreHighestPrio")
-		R := firstCall(low, "datastore.populateTreeWithRunning")
+		H := firstCall(low, "tree.TreeCacheClient.ReadCurrentUpdatesHighestPriorities")
+		R := firstCall(low, "tree.TreeCacheClient.ReadRunningFull")
 		checkOrder(w, r, "MERGED-BEFORE-VALIDATE", low, H, V, "alternatives loaded before Validate")
 		checkOrder(w, r, "MERGED-BEFORE-VALIDATE", low, R, V, "running loaded before Validate")
 		if V != nil {
@@ -392,7 +392,7 @@ func c04(w *core.World, r *core.Report) {
 			}
 			r.Check(okFin, "MERGED-BEFORE-VALIDATE", core.Site(low, "FinishInsertionPhase between the loads and Validate"), w.InstrPos(V), "choices are resolved and caches reset on the complete tree before it is validated")
 			late := ""
-			for _, c := range core.CallsTo(low, "tree.RootEntry.AddCacheUpdatesRecursive", "tree.RootEntry.LoadIntendedStoreOwnerData", "datastore.loadIntendedStoreHighestPrio", "datastore.populateTreeWithRunning", "tree.RootEntry.ImportConfig") {
+			for _, c := range core.CallsTo(low, "tree.RootEntry.AddCacheUpdatesRecursive", "tree.RootEntry.LoadIntendedStoreOwnerData", "tree.RootEntry.AddCacheUpdateRecursive", "tree.RootEntry.ImportConfig") {
 				if core.CanFollow(V, c) {
 					late = core.CalleeKey(c)
 				}
@@ -413,10 +413,16 @@ func c04(w *core.World, r *core.Report) {
 	ruleNoGlobalState(w, r, "NO-GLOBAL-STATE", validate)
 
 	// ---- RESULTS
-	r.Rule("RESULTS", 4, "verdict plumbing: ValidationResults.HasErrors is true iff some intent has errors (depends on the errors slices), ValidationResultIntent.AddEntry files errors as errors and warnings as warnings, RootEntry.Validate adds every entry received until the channel is closed.")
+	r.Rule("RESULTS", 5, "verdict plumbing: ValidationResults.HasErrors is true iff some intent has errors (depends on the errors slices), ValidationResultIntent.AddEntry files errors as errors and warnings as warnings, RootEntry.Validate adds every entry received until the channel is closed.")
 	if f := w.Func("pkg/types", "ValidationResults", "HasErrors"); f != nil {
 		sl := core.ReturnSlice(f, -1)
 		r.Check(sl.HasFieldLoad("types.ValidationResultIntent.errors"), "RESULTS", core.Site(f, "depends on errors"), w.Pos(f.Pos()), "HasErrors must look at the recorded errors")
+		if j := w.Func("pkg/types", "ValidationResults", "JoinErrors"); j != nil {
+			// the error handed back for a refused request is built from the same slices HasErrors looks at, by errors.Join
+			// (backs the fact "JoinErrors() is non-nil when HasErrors()" that the guard rules of C03 use)
+			js := core.ReturnSlice(j, -1)
+			r.Check(js.HasFieldLoad("types.ValidationResultIntent.errors") && js.HasCallTo("errors.Join"), "RESULTS", core.Site(j, "joins the recorded errors"), w.Pos(j.Pos()), "JoinErrors must join the errors HasErrors counts")
+		}
 	}
 	if f := w.Func("pkg/types", "ValidationResultIntent", "AddEntry"); f != nil {
 		for _, t := range []struct {
